@@ -419,6 +419,51 @@ package actions
 //@                 (forall d Id :: deliveries.exists(d) && deliveries.subscription_id(d) == s.ID && deliveries.expires_at(d) > now && same_key(deliveries.message_id(d), m.ID) ==> deliveries.published_at(d) <= deliveries.published_at(p)))) &&
 //@             (!cb.deliveries.not_before_id$set(dc) ==> (forall d Id :: !(deliveries.exists(d) && deliveries.subscription_id(d) == s.ID && deliveries.expires_at(d) > now && same_key(deliveries.message_id(d), m.ID))))
 //@   ensures wakes: [C10] dc != nil ==> wake_on_commit(s.ID)
-//@   ensures wake_frame: forall x uuid.UUID :: wake_on_commit(x) ==> old(wake_on_commit(x)) || x == s.ID
+//@   ensures wake_frame: forall x uuid.UUID :: wake_on_commit(x) ==> old(wake_on_commit(x)) || (x == s.ID && dc != nil)
 //@   ensures no_swallowed_failure: [C09] dbfailed() && !old(dbfailed()) ==> err != nil
 //@   modifies CB:deliveries:*, S:dbfailed, S:wake_on_commit
+
+// ---- C01/C02/C14: publishing stores exactly one message row and exactly one delivery per live subscription of
+// the topic whose filter accepts the message, stamped with that subscription's retention and delivery delay;
+// nothing that existed before is changed.
+//@ func (*PublishMessage).Execute(a, ctx, tx) (err)
+//@   property C01
+//@   uses tables notifyspec
+//@   requires a != nil && tx != nil
+//@   ensures message_stored: err == nil ==> a.results != nil && (forall m Id :: m == a.results.ID ==> !old(messages.exists(m)) && messages.exists(m) &&
+//@             topics.exists(messages.topic_id(m)) && topics.deleted_at$null(messages.topic_id(m)) &&
+//@             (old(a.params.TopicID) != nil ==> messages.topic_id(m) == old(deref(a.params.TopicID))) &&
+//@             (a.params.TopicName != "" ==> topics.name(messages.topic_id(m)) == a.params.TopicName) &&
+//@             messages.payload(m) == a.params.Payload.base && messages.attributes(m) == a.params.Attributes &&
+//@             (messages.order_key$null(m) <==> a.params.OrderKey == "") && (a.params.OrderKey != "" ==> messages.order_key(m) == a.params.OrderKey))
+//@   ensures one_message: err == nil ==> (forall m Id :: !old(messages.exists(m)) && messages.exists(m) ==> m == a.results.ID)
+//@   ensures messages_kept: forall m Id :: old(messages.exists(m)) ==> messages.exists(m) && messages.topic_id(m) == old(messages.topic_id(m)) && messages.payload(m) == old(messages.payload(m)) &&
+//@             messages.attributes(m) == old(messages.attributes(m)) && messages.order_key(m) == old(messages.order_key(m)) && messages.order_key$null(m) == old(messages.order_key$null(m))
+//@   ensures fanout_sound: err == nil ==> exists now clock :: forall d Id :: !old(deliveries.exists(d)) && deliveries.exists(d) ==>
+//@             deliveries.message_id(d) == a.results.ID && old(live_sub(deliveries.subscription_id(d))) &&
+//@             subscriptions.topic_id(deliveries.subscription_id(d)) == messages.topic_id(a.results.ID) &&
+//@             filter_ok_row(deliveries.subscription_id(d), a.params.Attributes) &&
+//@             deliveries.completed_at$null(d) && deliveries.attempts(d) == 0 && deliveries.published_at(d) == now &&
+//@             deliveries.expires_at(d) == now + subscriptions.message_ttl(deliveries.subscription_id(d)) &&
+//@             deliveries.attempt_at(d) == now + subscriptions.delivery_delay(deliveries.subscription_id(d))
+//@   ensures fanout_complete: err == nil ==> (forall s Id :: old(live_sub(s)) && subscriptions.topic_id(s) == messages.topic_id(a.results.ID) && filter_ok_row(s, a.params.Attributes) ==>
+//@             (exists d Id :: !old(deliveries.exists(d)) && deliveries.exists(d) && deliveries.subscription_id(d) == s))
+//@   ensures fanout_once: err == nil ==> (forall d1 Id, d2 Id :: !old(deliveries.exists(d1)) && deliveries.exists(d1) && !old(deliveries.exists(d2)) && deliveries.exists(d2) &&
+//@             deliveries.subscription_id(d1) == deliveries.subscription_id(d2) ==> d1 == d2)
+//@   ensures existing_untouched: [C02] forall d Id :: old(deliveries.exists(d)) ==> delivery_unchanged(d)
+//@   ensures wakes: [C10] err == nil ==> (forall d Id :: !old(deliveries.exists(d)) && deliveries.exists(d) ==> wake_on_commit(deliveries.subscription_id(d)))
+//@   ensures no_swallowed_failure: [C09] dbfailed() && !old(dbfailed()) ==> err != nil
+//@   modifies T:messages:*, T:deliveries:*, CB:*, E:*ent.DeliveryCreate:, S:dbfailed, S:wake_on_commit, F:actions.PublishMessage:*, F:actions.publishMessageResults:*, F:actions.actionTimer:*
+//@   loop 1
+//@     invariant len(dc) <= idx + 1
+//@     invariant forall j int :: {dc[j]} 0 <= j && j < len(dc) ==> dc[j] != nil && cb.deliveries.message_id(dc[j]) == m.ID && cb.deliveries.message_id$set(dc[j]) && cb.deliveries.subscription_id$set(dc[j]) &&
+//@                 cb.deliveries.expires_at$set(dc[j]) && cb.deliveries.published_at$set(dc[j]) && cb.deliveries.published_at(dc[j]) == now && cb.deliveries.attempt_at$set(dc[j]) &&
+//@                 !cb.deliveries.completed_at$set(dc[j]) && !cb.deliveries.attempts$set(dc[j]) && !cb.deliveries.id$set(dc[j]) &&
+//@                 (exists k int :: 0 <= k && k <= idx && cb.deliveries.subscription_id(dc[j]) == t.Edges.Subscriptions[k].ID && filter_ok(t.Edges.Subscriptions[k], m.Attributes) &&
+//@                    cb.deliveries.expires_at(dc[j]) == now + t.Edges.Subscriptions[k].MessageTTL && cb.deliveries.attempt_at(dc[j]) == now + t.Edges.Subscriptions[k].DeliveryDelay)
+//@     invariant forall k int :: {t.Edges.Subscriptions[k]} 0 <= k && k <= idx && filter_ok(t.Edges.Subscriptions[k], m.Attributes) ==>
+//@                 wake_on_commit(t.Edges.Subscriptions[k].ID) && (exists j int :: 0 <= j && j < len(dc) && cb.deliveries.subscription_id(dc[j]) == t.Edges.Subscriptions[k].ID)
+//@     invariant forall j1 int, j2 int :: 0 <= j1 && j1 < j2 && j2 < len(dc) ==> cb.deliveries.subscription_id(dc[j1]) != cb.deliveries.subscription_id(dc[j2])
+//@     invariant forall j int, k int :: 0 <= j && j < len(dc) && idx < k && k < len(t.Edges.Subscriptions) ==> cb.deliveries.subscription_id(dc[j]) != t.Edges.Subscriptions[k].ID
+//@     invariant forall x uuid.UUID :: wake_on_commit(x) ==> old(wake_on_commit(x)) || (exists k int :: 0 <= k && k <= idx && x == t.Edges.Subscriptions[k].ID && filter_ok(t.Edges.Subscriptions[k], m.Attributes))
+//@     invariant !dbfailed() || old(dbfailed())
